@@ -240,18 +240,18 @@ def _free_case(draw, tier):
         "inserts": draw(st.integers(1, 12)),
         "same_db": draw(st.booleans()),
         "mode": draw(st.sampled_from(["connect+insert", "connect-only", "insert-only", "create-tables"])),
+        "context": draw(st.sampled_from(["arguments", "arguments", "none"])),
     }
 
 
-def run_free(case, ctx: Ctx) -> None:
+def _run_free_here(case, ctx) -> None:
     n, m, mode = case["sessions"], case["inserts"], case["mode"]
-    if not (isinstance(n, int) and 2 <= n <= 8 and isinstance(m, int) and 1 <= m <= 20) or mode not in ("connect+insert", "connect-only", "insert-only", "create-tables"):
-        raise InvalidCase()
+    bare = case.get("context", "arguments") == "none"  # sessions opened without database/schema (they use qualified names anyway)
     fs = new_instance()
     try:
         boot = fs.connect("DBF", "SF")
         boot.cursor().execute("CREATE TABLE DBF.SF.SHARED (TAG INT)")
-        pre = [fs.connect("DBF", "SF") for _ in range(n)] if mode in ("insert-only", "create-tables") else None
+        pre = [fs.connect() if bare else fs.connect("DBF", "SF") for _ in range(n)] if mode in ("insert-only", "create-tables") else None
         errors: list = []
         barrier = threading.Barrier(n)
 
@@ -259,7 +259,7 @@ def run_free(case, ctx: Ctx) -> None:
             try:
                 barrier.wait(10)
                 if pre is None:
-                    conn = fs.connect("NEWDB" if case["same_db"] else f"NEWDB{i}", "NEWS")
+                    conn = fs.connect() if bare else fs.connect("NEWDB" if case["same_db"] else f"NEWDB{i}", "NEWS")
                 else:
                     conn = pre[i]
                 if mode in ("connect+insert", "insert-only"):
@@ -280,7 +280,7 @@ def run_free(case, ctx: Ctx) -> None:
             t.start()
         for t in threads:
             t.join(60)
-        ctx.cls(f"free:{mode}", f"free:same_db={case['same_db']}")
+        ctx.cls(f"free:{mode}", f"free:same_db={case['same_db']}", f"free:context={case.get('context', 'arguments')}")
         ctx.nontrivial = True
         if any(t.is_alive() for t in threads):
             ctx.fail(f"C19|free-running|hang|{mode}", "a thread did not finish within 60 s")
@@ -300,6 +300,74 @@ def run_free(case, ctx: Ctx) -> None:
                 ctx.fail("C19|free-running|create-with-comment-torn", f"{o.rows if o.ok else o}")
     finally:
         close_instance(fs)
+
+
+class _Collect:
+    """Stands in for Ctx inside the forked child: collects what the parent replays into the real Ctx."""
+
+    def __init__(self):
+        self.fails: list = []
+        self.classes: list = []
+        self.nontrivial = False
+
+    def fail(self, sig: str, detail: str = "") -> None:
+        self.fails.append([sig, detail])
+
+    def cls(self, *names: str) -> None:
+        self.classes.extend(names)
+
+
+def run_free(case, ctx: Ctx) -> None:
+    """The threads run in a forked child: a crash of the interpreter (two threads inside one engine connection) must end the case,
+    not the worker."""
+    import json
+    import os
+    import signal
+    import tempfile
+    import time
+
+    n, m, mode = case["sessions"], case["inserts"], case["mode"]
+    if not (isinstance(n, int) and 2 <= n <= 8 and isinstance(m, int) and 1 <= m <= 20) or mode not in ("connect+insert", "connect-only", "insert-only", "create-tables") or case.get("context", "arguments") not in ("arguments", "none"):
+        raise InvalidCase()
+    fd, out = tempfile.mkstemp(prefix="vf-c19-", suffix=".json")
+    os.close(fd)
+    try:
+        pid = os.fork()
+        if pid == 0:
+            code = 3
+            try:
+                col = _Collect()
+                _run_free_here(case, col)
+                with open(out, "w") as f:
+                    json.dump({"fails": col.fails, "classes": col.classes}, f)
+                code = 0
+            finally:
+                os._exit(code)
+        t0 = time.time()
+        status = None
+        while time.time() - t0 < 150:
+            done, st_ = os.waitpid(pid, os.WNOHANG)
+            if done:
+                status = st_
+                break
+            time.sleep(0.02)
+        ctx.nontrivial = True
+        if status is None:
+            os.kill(pid, signal.SIGKILL)
+            os.waitpid(pid, 0)
+            ctx.fail(f"C19|free-running|hang|{mode}", "the process running the threads did not finish within 150 s")
+            return
+        if os.WIFSIGNALED(status):
+            ctx.fail(f"C19|free-running|process-crashed|{mode}|context={case.get('context', 'arguments')}", f"the process running {n} session threads died with signal {os.WTERMSIG(status)}")
+            return
+        if os.WEXITSTATUS(status) != 0:
+            raise RuntimeError(f"free-running child failed with exit status {os.WEXITSTATUS(status)}")
+        res = json.load(open(out))
+        ctx.cls(*res["classes"])
+        for sig, detail in res["fails"]:
+            ctx.fail(sig, detail)
+    finally:
+        os.unlink(out)
 
 
 PROP = Prop(
